@@ -1,7 +1,6 @@
 package goose
 
 import (
-	"fmt"
 	"go/ast"
 	"go/types"
 
@@ -123,18 +122,24 @@ func (ctx Ctx) coqTypeOfType(n ast.Node, t types.Type) coq.Type {
 	return nil // unreachable
 }
 
-func sliceElem(t types.Type) types.Type {
-	if t, ok := t.(*types.Slice); ok {
+// sliceElem returns the element type of a slice type (n is only used for error
+// reporting)
+func (ctx Ctx) sliceElem(n ast.Node, t types.Type) types.Type {
+	if t, ok := t.Underlying().(*types.Slice); ok {
 		return t.Elem()
 	}
-	panic(fmt.Errorf("expected slice type, got %v", t))
+	ctx.unsupported(n, "expected slice type, got %v", t)
+	return nil
 }
 
-func ptrElem(t types.Type) types.Type {
-	if t, ok := t.(*types.Pointer); ok {
+// ptrElem returns the pointee type of a pointer type (n is only used for error
+// reporting)
+func (ctx Ctx) ptrElem(n ast.Node, t types.Type) types.Type {
+	if t, ok := t.Underlying().(*types.Pointer); ok {
 		return t.Elem()
 	}
-	panic(fmt.Errorf("expected pointer type, got %v", t))
+	ctx.unsupported(n, "expected pointer type, got %v", t)
+	return nil
 }
 
 func (ctx Ctx) arrayType(e *ast.ArrayType) coq.Type {
@@ -208,7 +213,7 @@ func isLockRef(t types.Type) bool {
 	if t, ok := t.(*types.Pointer); ok {
 		if t, ok := t.Elem().(*types.Named); ok {
 			name := t.Obj()
-			return name.Pkg().Name() == "sync" &&
+			return name.Pkg() != nil && name.Pkg().Name() == "sync" &&
 				name.Name() == "Mutex"
 		}
 	}
@@ -219,7 +224,7 @@ func isCFMutexRef(t types.Type) bool {
 	if t, ok := t.(*types.Pointer); ok {
 		if t, ok := t.Elem().(*types.Named); ok {
 			name := t.Obj()
-			return name.Pkg().Name() == "cfmutex" &&
+			return name.Pkg() != nil && name.Pkg().Name() == "cfmutex" &&
 				name.Name() == "CFMutex"
 		}
 	}
@@ -230,7 +235,7 @@ func isCondVar(t types.Type) bool {
 	if t, ok := t.(*types.Pointer); ok {
 		if t, ok := t.Elem().(*types.Named); ok {
 			name := t.Obj()
-			return name.Pkg().Name() == "sync" &&
+			return name.Pkg() != nil && name.Pkg().Name() == "sync" &&
 				name.Name() == "Cond"
 		}
 	}
@@ -241,7 +246,7 @@ func isWaitGroup(t types.Type) bool {
 	if t, ok := t.(*types.Pointer); ok {
 		if t, ok := t.Elem().(*types.Named); ok {
 			name := t.Obj()
-			return name.Pkg().Name() == "sync" &&
+			return name.Pkg() != nil && name.Pkg().Name() == "sync" &&
 				name.Name() == "WaitGroup"
 		}
 	}
@@ -252,7 +257,8 @@ func isProphId(t types.Type) bool {
 	if t, ok := t.(*types.Pointer); ok {
 		if t, ok := t.Elem().(*types.Named); ok {
 			name := t.Obj()
-			return (name.Pkg().Name() == "machine" || name.Pkg().Name() == "primitive") &&
+			return name.Pkg() != nil &&
+				(name.Pkg().Name() == "machine" || name.Pkg().Name() == "primitive") &&
 				name.Name() == "prophId"
 		}
 	}
@@ -278,6 +284,10 @@ func isString(t types.Type) bool {
 func isDisk(t types.Type) bool {
 	if t, ok := t.(*types.Named); ok {
 		obj := t.Obj()
+		if obj.Pkg() == nil {
+			// a universe type such as error
+			return false
+		}
 		if (obj.Pkg().Path() == "github.com/goose-lang/goose/machine/disk" || obj.Pkg().Path() == "github.com/goose-lang/primitive/disk") &&
 			obj.Name() == "Disk" {
 			return true
@@ -358,7 +368,7 @@ func (ctx Ctx) getInterfaceInfo(t types.Type) (interfaceTypeInfo, bool) {
 	if pt, ok := t.(*types.Pointer); ok {
 		t = pt.Elem()
 	}
-	if t, ok := t.(*types.Named); ok {
+	if t, ok := t.(*types.Named); ok && t.Obj().Pkg() != nil {
 		name := ctx.qualifiedName(t.Obj())
 		if interfaceType, ok := t.Underlying().(*types.Interface); ok {
 			return interfaceTypeInfo{
